@@ -83,7 +83,7 @@ def case_recipe(G, espec, rng, nmods, annotate=False, refs=False, rotate=True, s
                 spec.pop("refs")          # no reference list at all (equivalent to an empty one)
         if rng.random() < 0.3:
             # annotations of real files: none of them has any bearing on an assembly
-            spec["ann"] = {"molecule_type": rng.choice(["DNA", "ds-DNA", "ss-DNA", "genomic DNA", "other DNA", "ms-DNA", "mRNA", ""]),
+            spec["ann"] = {"molecule_type": rng.choice(["DNA", "ds-DNA", "ss-DNA", "genomic DNA", "other DNA", "ms-DNA", "unassigned DNA", ""]),
                            "data_file_division": rng.choice(["SYN", "UNA", "PLN"]), "organism": rng.choice(["synthetic DNA construct", "."]),
                            "taxonomy": rng.choice([[], ["other sequences", "artificial sequences"]]),
                            "keywords": rng.choice([[""], ["kw1", "kw2"]]), "date": "01-JAN-1980"}
